@@ -123,6 +123,53 @@ func judge(id int, e entry) (res result) {
 	return res
 }
 
+// judgeBatch stores several golden records with distinct content ids in ONE transaction of the repository (as a
+// Commit does) and reads them back with ONE GetAll: records must not influence each other.
+func judgeBatch(id int, es []entry) (res result) {
+	res = result{Id: id, Mode: "record-batch", Status: "ok"}
+	fail := func(kind, d string) result {
+		res.Status, res.Owner, res.Mismatch = "violation", "C19", &mismatch{Kind: kind, Detail: d}
+		return res
+	}
+	defer func() {
+		if r := recover(); r != nil {
+			res.Status, res.Owner = "violation", "C19"
+			res.Mismatch = &mismatch{Kind: "panic", Detail: fmt.Sprint("panic: ", r)}
+		}
+	}()
+	st := verif.NewRecordStore()
+	var recs []verif.Record
+	want := map[string]verif.Record{}
+	enc := map[string][]byte{}
+	for _, e := range es {
+		r := verif.Record{Key: string(bs(e.Key)), TxId: uuidOf(e.Tx), ContentId: uuidOf(e.Cid), Seq: seqOf(e.Seq)}
+		if _, dup := want[r.ContentId]; dup {
+			continue
+		}
+		want[r.ContentId] = r
+		enc[r.ContentId] = bs(e.Enc)
+		recs = append(recs, r)
+	}
+	if err := st.SetAll(recs); err != nil {
+		return fail("encode", fmt.Sprintf("storing %d records in one transaction failed: %v", len(recs), err))
+	}
+	for cid, b := range enc {
+		if !bytes.Equal(st.Raw()["file/"+cid], b) {
+			return fail("layout", fmt.Sprintf("of %d records stored in one transaction, the one with content id %s is stored as %x, layout says %x", len(recs), cid, st.Raw()["file/"+cid], b))
+		}
+	}
+	got, err := st.GetAll()
+	if err != nil || len(got) != len(want) {
+		return fail("roundtrip", fmt.Sprintf("GetAll over %d records returned %d (%v)", len(want), len(got), err))
+	}
+	for _, g := range got {
+		if w, ok := want[g.ContentId]; !ok || w != g {
+			return fail("roundtrip", fmt.Sprintf("GetAll over %d records: decoded %+v, encoded %+v", len(want), g, want[g.ContentId]))
+		}
+	}
+	return res
+}
+
 func keysOf(m map[string][]byte) []string {
 	var ks []string
 	for k := range m {
@@ -151,6 +198,13 @@ func main() {
 	defer w.Flush()
 	enc := json.NewEncoder(w)
 	n := 0
+	var batch []entry
+	flush := func(id int) {
+		if len(batch) > 1 {
+			enc.Encode(judgeBatch(id, batch))
+		}
+		batch = nil
+	}
 	for line := 0; sc.Scan(); line++ {
 		if line < *from {
 			continue
@@ -165,5 +219,12 @@ func main() {
 			continue
 		}
 		enc.Encode(judge(line, es[0]))
+		if es[0].Mode == "rec" {
+			batch = append(batch, es[0])
+			if len(batch) >= 12 {
+				flush(line)
+			}
+		}
 	}
+	flush(-1)
 }
